@@ -65,14 +65,29 @@ theorem c05_reweight_flag (w o r : Obs α) (ac : Bool) (h : reweight1 w o ac = .
   · cases h
   split at h
   · cases h
+  split at h
+  · cases h
   obtain ⟨_, _, h⟩ := C05.bind_ok h
   exact C05.rwFinish_flag w o r ac h
+
+/-- C05 (rejection): a covariance input has no configurations that could be paired - neither the observable
+    nor the weight may carry one (the part would otherwise be dropped silently) -/
+theorem c05_reweight_rejects_covobs_either (w o : Obs α) (ac : Bool) (h : 0 < o.covs.length ∨ 0 < w.covs.length) :
+    reweight1 w o ac = .error .covobs := by
+  rw [C05.reweight1_eq]
+  rcases h with h | h
+  · simp [h]
+  · by_cases ho : o.covs.length > 0
+    · simp [ho]
+    · simp [ho, h]
 
 /-- C05 (rejection): an observable with a configuration the weight lacks is refused -/
 theorem c05_reweight_rejects_missing_config (w o : Obs α) (ac : Bool) (r : Rep α) (wr : Rep α)
     (hr : r ∈ o.reps) (hw : w.rep? r.name = some wr) (hbad : ∃ c ∈ r.idl.toList, c ∉ wr.idl.toList) :
     ∃ e, reweight1 w o ac = .error e := by
   rw [C05.reweight1_eq]
+  split
+  · exact ⟨_, rfl⟩
   split
   · exact ⟨_, rfl⟩
   split
